@@ -561,10 +561,12 @@ func gepInstType(elemType, src types.Type, indices []value.Value) types.Type {
 			idx = getIndex(index)
 		default:
 			idx = gep.Index{HasVal: false}
-			// Check if index is of vector type.
-			if indexType, ok := index.Type().(*types.VectorType); ok {
-				idx.VectorLen = indexType.Len
-			}
+		}
+		// Check if index is of vector type (also for constant indices such as
+		// zeroinitializer, undef and poison, which carry no elements).
+		if indexType, ok := index.Type().(*types.VectorType); ok {
+			idx.VectorLen = indexType.Len
+			idx.Scalable = indexType.Scalable
 		}
 		idxs = append(idxs, idx)
 	}
